@@ -1263,6 +1263,16 @@ def _tn_noise(st):
         if (isinstance(tg, ast.Subscript) and isinstance(tg.value, ast.Name) and isinstance(tg.slice, ast.Constant)
                 and tg.slice.value in ('aerotech_angle', 'rotation_angle') and isinstance(v, ast.Constant) and v.value is None):
             return True
+    # the time estimate (C12 / C09): a local `_<x>_fab_time` started at a constant, summed over the columns' own estimates, stored in self._fabtime
+    if (isinstance(st, ast.Assign) and len(st.targets) == 1 and isinstance(st.targets[0], ast.Name) and re.fullmatch(r'_\w+_fab_time', st.targets[0].id)
+            and isinstance(st.value, ast.Constant) and isinstance(st.value.value, float)):
+        return True
+    if re.fullmatch(r"Assign\(targets=\[Attribute\(value=Name\(id='self'\), attr='_fabtime'\)\], value=Name\(id='_\w+_fab_time'\)\)", dump(st)):
+        return True
+    if (isinstance(st, ast.For) and not st.orelse and dump(st.iter) == "Attribute(value=Name(id='self'), attr='obj_list')" and st.body
+            and all(isinstance(b, ast.AugAssign) and isinstance(b.target, ast.Name) and re.fullmatch(r'_\w+_fab_time', b.target.id)
+                    and not any(isinstance(n, ast.Call) for n in ast.walk(b)) for b in st.body)):
+        return True
     if isinstance(st, ast.For) and dump(st.iter) == _TN_TOOLPATH:
         # the floor arrays: numpy only
         return not any(isinstance(n, ast.Call) and isinstance(n.func, ast.Attribute) and n.func.attr in ('mkdir', 'export_array2d', 'load_program')
